@@ -567,6 +567,7 @@ func (ls *lockstep) step(t int) string {
 		// dump every goroutine so that the report shows where the goroutine is stuck
 		ls.done[t] = true
 		ls.unquiet = true
+		hangs++
 		buf := make([]byte, 1<<20)
 		fmt.Fprintf(os.Stderr, "c08: goroutine %d did not reach a yield point / return within %v; goroutine dump:\n%s\n", t, watchdog, buf[:runtime.Stack(buf, true)])
 		return strconv.Itoa(t) + ":hang"
@@ -606,7 +607,25 @@ func (ls *lockstep) step(t int) string {
 		}
 	}
 	ls.negPanic = ls.negPanic[:0]
+	// false-exhaustion candidates: ids free right now; a bit the GetStream call itself has just set does not make
+	// the id "in use by somebody else": it stays a candidate of THAT call
+	var own []uint64
+	if wasGet && ls.getFree[t] != nil {
+		own = append(own, ls.getFree[t]...)
+		for w := range own {
+			if w < len(before) && w < len(after) {
+				own[w] &= after[w] &^ before[w]
+			} else {
+				own[w] = 0
+			}
+		}
+	}
 	ls.sample(after)
+	if own != nil && ls.getFree[t] != nil {
+		for w := range own {
+			ls.getFree[t][w] |= own[w]
+		}
+	}
 	o := strconv.Itoa(t) + ":"
 	for _, r := range ev.rets {
 		o += r + ":"
@@ -624,7 +643,16 @@ func runConc(proto, k int, pre []string, scripts [][]string, sched []int, choose
 	return
 }
 
+// hangs: scheduling decisions that ended in the watchdog (each costs 20 s of wall time): after maxHangs of them
+// the remaining lock-step scenarios of the run are skipped (their `conc` line then differs from the model's)
+var hangs int
+
+const maxHangs = 2
+
 func runConcX(proto, k int, pre []string, scripts [][]string, sched []int, choose func(ls *lockstep, enabled []int) int) (answer string, full []int, verdict string, ls *lockstep) {
+	if hangs >= maxHangs {
+		return "skipped-after-hangs", sched, "ok", nil
+	}
 	g := gocql.VerifStreamsNew(proto)
 	active = nil
 	for _, w := range pre {
@@ -1601,6 +1629,9 @@ func genWindow(r *vh.Rng, out *vh.Out) {
 	np := 1
 	if k >= 3 && r.Intn(3) == 0 {
 		np = 2
+		if k >= 4 && r.Intn(2) == 0 {
+			np = 3
+		}
 	}
 	scripts := make([][]string, k)
 	used := map[int]bool{}
@@ -1678,11 +1709,12 @@ func presetTok(r *vh.Rng, nb int) string {
 	}
 }
 
-// offsetScenario: [fill to `fill` ids], preset, then `pairs` acquire/release steps with `hold` ids kept in
-// flight (hold = 0: release at once), Available now and then; a final GetStream burst. Emitted twice: judged by
-// the abstract specification (`smon`, spec-backed) and with the exact answers (`seq`, model-vs-code: the
-// rotation start word across the wrap).
-func offsetScenario(out *vh.Out, r *vh.Rng, proto int, fill int, tok string, pairs, hold int, cls string) {
+// offsetScenario: prefix `pre` (fill, holes), preset, then `pairs` acquire/release steps with `hold` ids kept in
+// flight (hold = 0: release at once), Available now and then. Emitted twice: judged by the abstract
+// specification (`smon`, spec-backed) and with the exact answers (`seq`, model-vs-code: the rotation start
+// word across the wrap).
+func offsetScenario(out *vh.Out, r *vh.Rng, proto int, pre []string, tok string, pairs, hold int, cls string) {
+	withSeq := proto <= 2 || len(pre) == 0 // (the model pays ~1 s for filling the big generator)
 	g := gocql.VerifStreamsNew(proto)
 	var ops []string
 	emit := func(tok string) string {
@@ -1690,8 +1722,8 @@ func offsetScenario(out *vh.Out, r *vh.Rng, proto int, fill int, tok string, pai
 		a, _ := seqTok(g, tok)
 		return a
 	}
-	if fill > 0 {
-		emit(fmt.Sprintf("G%d", fill))
+	for _, p := range pre {
+		emit(p)
 	}
 	emit(tok)
 	var fifo []int
@@ -1722,29 +1754,36 @@ func offsetScenario(out *vh.Out, r *vh.Rng, proto int, fill int, tok string, pai
 	ans := exec(op)
 	out.Case(op, ans, "smon/"+cls, true)
 	out.Dist["smon-verdict/"+strings.SplitN(ans, ":", 2)[0]]++
-	op = fmt.Sprintf("seq %d %s s", proto, strings.Join(ops, " "))
-	out.Case(op, exec(op), "seq/"+cls, true)
+	if withSeq {
+		op = fmt.Sprintf("seq %d %s s", proto, strings.Join(ops, " "))
+		out.Case(op, exec(op), "seq/"+cls, true)
+	}
 }
 
 // fixedOffsets (every run): for both capacities the offset word at 2^32 - k and 2^31 - k followed by
 // 3*numBuckets+16 acquire/release pairs (so that every start word is passed on both sides of the boundary), on
-// a fresh and on an almost full generator (there the scan has to walk to the one word with a free id)
+// a fresh generator and on full generators with a single hole in the first / the last / a middle word (there
+// the scan has to walk from every start word to the one word with a free id)
 func fixedOffsets(out *vh.Out) {
 	for k := 0; k <= 6; k++ {
 		for _, b := range []string{"Ot", "Om"} {
 			tok := fmt.Sprintf("%s%d", b, k)
-			offsetScenario(out, nil, 2, 0, tok, 3*2+16, 0, "offset-preset/fresh")
-			offsetScenario(out, nil, 2, 126, tok, 3*2+16, 0, "offset-preset/nearfull")
-			offsetScenario(out, nil, 2, 60, tok, 3*2+16, 3, "offset-preset/partial")
+			offsetScenario(out, nil, 2, nil, tok, 3*2+16, 0, "offset-preset/fresh")
+			offsetScenario(out, nil, 2, []string{"G127", "c1"}, tok, 3*2+16, 0, "offset-preset/one-hole")
+			offsetScenario(out, nil, 2, []string{"G127", "c127"}, tok, 3*2+16, 0, "offset-preset/one-hole")
+			offsetScenario(out, nil, 2, []string{"G127", "c63", "c64"}, tok, 3*2+16, 1, "offset-preset/two-holes")
+			offsetScenario(out, nil, 2, []string{"G60"}, tok, 3*2+16, 3, "offset-preset/partial")
 		}
 	}
 	for _, tok := range []string{"Ot1030", "Om1030", "Ot3"} {
-		offsetScenario(out, nil, 3, 0, tok, 3*512+16, 0, "offset-preset/fresh")
+		offsetScenario(out, nil, 3, nil, tok, 3*512+16, 0, "offset-preset/fresh")
 	}
-	offsetScenario(out, nil, 3, 32766, "Ot520", 3*512+16, 0, "offset-preset/nearfull")
+	offsetScenario(out, nil, 3, []string{"G32767", "c5"}, "Ot520", 3*512+16, 0, "offset-preset/one-hole")
+	offsetScenario(out, nil, 3, []string{"G32767", "c16400"}, "Om520", 3*512+16, 0, "offset-preset/one-hole")
 }
 
 var bigOffsetBudget = 2
+var bigOffsetFills = false
 
 func genOffset(r *vh.Rng, out *vh.Out) {
 	proto := 2
@@ -1754,24 +1793,42 @@ func genOffset(r *vh.Rng, out *vh.Out) {
 	}
 	capN := capOf(proto)
 	nb := capN / 64
-	fill := 0
+	var pre []string
+	free := 0
 	cls := "offset-preset/fresh"
-	switch r.Intn(4) {
-	case 0:
-		fill = capN - 1 - r.Intn(3)
-		cls = "offset-preset/nearfull"
-	case 1:
-		fill = 1 + r.Intn(capN-2)
+	shape := r.Intn(5)
+	if proto > 2 && !bigOffsetFills {
+		shape = 4
+	}
+	switch shape {
+	case 0, 1: // full, 1..3 holes anywhere
+		pre = []string{fmt.Sprintf("G%d", capN-1)}
+		seen := map[int]bool{}
+		for i := 1 + r.Intn(3); i > 0; i-- {
+			x := 1 + r.Intn(capN-1)
+			if !seen[x] {
+				seen[x] = true
+				free++
+				pre = append(pre, fmt.Sprintf("c%d", x))
+			}
+		}
+		cls = "offset-preset/holes"
+	case 2:
+		fill := 1 + r.Intn(capN-2)
+		free = capN - 1 - fill
+		pre = []string{fmt.Sprintf("G%d", fill)}
 		cls = "offset-preset/partial"
+	default:
+		free = capN - 1
 	}
 	hold := 0
 	if r.Intn(3) == 0 {
-		hold = r.Intn(capN - 1 - fill + 1)
+		hold = r.Intn(free + 1)
 		if hold > 70 {
 			hold = 70
 		}
 	}
-	offsetScenario(out, r, proto, fill, presetTok(r, nb), 3*nb+16+r.Intn(8), hold, cls)
+	offsetScenario(out, r, proto, pre, presetTok(r, nb), 3*nb+16+r.Intn(8), hold, cls)
 }
 
 var monTick int
@@ -1918,7 +1975,7 @@ func main() {
 	id0, _ := g0.GetStream()
 	g0.Clear(id0)
 	g0.Available()
-	if len(seen) == 0 || seen[0] != 1 {
+	if len(seen) == 0 { // (a yield sequence other than the expected one is not fatal: the lock-step runs report it)
 		fmt.Fprintf(os.Stderr, "c08: the verification yield points yield(1..12) of internal/streams/streams.go are missing "+
 			"(sequential GetStream/Clear/Available passed %v, the unchanged code passes [1 2 4 5 7 8 9 11 12]); "+
 			"apply harness/cmd/c08/hooks/streams_yield.patch\n", seen)
@@ -1941,6 +1998,7 @@ func main() {
 		bigSmonBudget = 12
 		bigWindowBudget = 200
 		bigOffsetBudget = 12
+		bigOffsetFills = true
 	}
 	// fixed boundary scenarios: use every id sequentially, then fail, both capacities
 	for _, op := range []string{
